@@ -218,6 +218,7 @@ func pcMerge(ts ...string) string {
 
 // pcRecycle switches the validators to the recycling option (results are not pooled on this path).
 var pcRecycle bool
+var pcPooledResults bool
 
 type pcCase struct {
 	schema string
@@ -428,6 +429,10 @@ func pcRun(prop, schema, inst string) (before, after any, valid bool, pan string
 	if pcRecycle {
 		opts = append(opts, validate.WithRecycleValidators(true))
 	}
+	if pcPooledResults {
+		// the mode the one-shot entry point runs in: validators and results both come from the pools
+		opts = append(opts, validate.WithRecycleValidators(true), validate.VerifWithRecycleResults())
+	}
 	res := validate.NewSchemaValidator(sch, nil, "", strfmt.Default, opts...).Validate(data)
 	if !res.IsValid() {
 		return before, data, false, ""
@@ -508,15 +513,14 @@ func postWorker(c *hx.Ctx, prop string) int {
 				rep.Inc("invalid_skipped", 1)
 				continue
 			}
-			for _, pol := range []int{verifrt.PolicyLIFO, verifrt.PolicyFIFO, verifrt.PolicyLIFO + 10} {
-				pcRecycle = pol >= 10
-				if pcRecycle {
-					pol -= 10
-				}
+			for _, pol := range []int{verifrt.PolicyLIFO, verifrt.PolicyFIFO, verifrt.PolicyLIFO + 10, verifrt.PolicyLIFO + 20, verifrt.PolicyFIFO + 20} {
+				pcRecycle = pol >= 10 && pol < 20
+				pcPooledResults = pol >= 20
+				pol %= 10
 				verifrt.SetPoolPolicy(pol)
 				before, after, valid, pan := pcRun(prop, schema, it)
 				verifrt.SetPoolPolicy(verifrt.PolicyLIFO)
-				pcRecycle = false
+				pcRecycle, pcPooledResults = false, false
 				rep.Inc("cases", 1)
 				if pan != "" {
 					sig := prop + " panic: " + pan
